@@ -212,6 +212,21 @@ Example C04_builtin_probe_instances :
   = [(5, MTrunc); (6, MAppend)].
 Proof. vm_compute. split; reflexivity. Qed.
 
+(* ---- a CAPTURED builtin that is alone on its line, `$(builtin redirs)`: the one application-side class that is left ---- *)
+(* the property: its text goes where the POSIX fold of its redirections says, starting from the capture pipes *)
+Definition C04_captured_builtin_full : Prop :=
+  forall rs, forallb (fun r => negb (out_of_scope r)) rs = true ->
+  captured_builtin_text rs = posix_sinks rs (OPipeW PCapOut, OPipeW PCapErr).
+(* class captured-builtin-target-ignored: the captured lone builtin carries at least one redirection *)
+Definition Known_C04 (rs : list redir) : bool := match rs with [] => false | _ => true end.
+(* x=$(alias > f): the text is in x, f is only truncated;  $(alias zz 2>&1): the diagnostic is not in the substitution *)
+Theorem C04_captured_builtin_refuted : ~ C04_captured_builtin_full.
+Proof. intro H. specialize (H [mkr F1 false (TFile 5)] eq_refl). vm_compute in H. discriminate. Qed.
+Theorem C04_captured_builtin_partial : forall rs, Known_C04 rs = false ->
+  captured_builtin_text rs = posix_sinks rs (OPipeW PCapOut, OPipeW PCapErr).
+Proof. intros [|r rest] H; [reflexivity | discriminate]. Qed.
+(* after notes/C04-fix-7.patch such a command is a one-stage pipeline whose stage is a builtin in a child: C04_builtin_child
+   (every n, n = 1 included, capture on) then gives exactly the POSIX fold -- the class disappears without a new theorem *)
 (* regression: the recursive look-ahead version before c05c052 *)
 Definition v_before_c05c052 := mkv true true true true true false false.
 Example C04_builtin_regression :
@@ -301,5 +316,7 @@ Print Assumptions C04_unopenable.
 Print Assumptions C04_builtin_child.
 Print Assumptions C04_builtin_sinks.
 Print Assumptions C04_builtin_probe.
+Print Assumptions C04_captured_builtin_refuted.
+Print Assumptions C04_captured_builtin_partial.
 Print Assumptions C04_shell_unaffected.
 Print Assumptions C04_holds.
